@@ -41,6 +41,10 @@ def skip():
 
 def excluded(**named) -> bool:
     for pred in G.exclude:
-        if pred(named):
-            return True
+        try:
+            if pred(named):
+                return True
+        except NameError:
+            # the predicate speaks about inputs this call site does not name
+            continue
     return False
